@@ -7,13 +7,17 @@ import FpDriver.Reader
 import FpDriver.Block
 import FpDriver.ExprLex
 import FpDriver.Combi
+import FpDriver.Cpp
+import FpDriver.One2
+import FpDriver.SymGlue
+import FpDriver.Tree3
 
 /-! dispatcher: one handler per model; each handler lives in FpDriver/<Model>.lean -/
 namespace FpDriver
 open Fp.Wire
 
 def handlers : List (String → List String → Option String) :=
-  [FpDriver.Splitline.handle, FpDriver.Norm.handle, FpDriver.Expr.handle, FpDriver.SymTree.handle, FpDriver.Reader.handle, FpDriver.Block.handle, FpDriver.ExprLex.handle, FpDriver.Combi.handle]
+  [FpDriver.Splitline.handle, FpDriver.Norm.handle, FpDriver.Expr.handle, FpDriver.SymTree.handle, FpDriver.Reader.handle, FpDriver.Block.handle, FpDriver.ExprLex.handle, FpDriver.Combi.handle, FpDriver.Cpp.handle, FpDriver.One2.handle, FpDriver.SymGlue.handle, FpDriver.Tree3.handle]
 
 def dispatch (line : String) : String :=
   match fields line with
